@@ -5,12 +5,12 @@
 EXTENDS Checkpoint, Json
 
 \* simulation objects: every step index up to Depth is a checkpoint position
-MC_Deep == {"Locomotive.relaxed", "FuelConverter", "Generator", "ElectricDrivetrain", "ElectricDrivetrain.bel",
+MC_Deep == {"Locomotive.init40", "Locomotive.relaxed", "FuelConverter", "Generator", "ElectricDrivetrain", "ElectricDrivetrain.bel",
             "ReversibleEnergyStorage", "Locomotive.conv", "Locomotive.bel", "Consist",
             "LocomotiveSimulation", "LocomotiveSimulation.bel", "ConsistSimulation",
             "SetSpeedTrainSim", "SpeedLimitTrainSim", "PathTpc.unfinished"}
 \* static types (Step = use) and heavier simulation objects
-MC_Shallow == {"Locomotive.mu", "LocomotiveSimulation.relaxed", "SpeedLimitTrainSim.mu", "PowerTrace", "SpeedTrace", "TrainConfig", "TrainSimBuilder", "TrainSimBuilder.init", "TrainSimBuilder.nan",
+MC_Shallow == {"FuelConverter.init40", "LocomotiveSimulation.init40", "Consist.init40", "Locomotive.mu", "LocomotiveSimulation.relaxed", "SpeedLimitTrainSim.mu", "PowerTrace", "SpeedTrace", "TrainConfig", "TrainSimBuilder", "TrainSimBuilder.init", "TrainSimBuilder.nan",
                "PathTpc.finished", "Network", "EstTimeNet", "Location", "TimedLinkPath",
                "SpeedLimitTrainSim.finished", "SetSpeedTrainSim.default", "LocomotiveSimulationVec"}
 MC_Static == {"PowerTrace", "SpeedTrace", "TrainConfig", "TrainSimBuilder", "TrainSimBuilder.init", "TrainSimBuilder.nan",
